@@ -16,6 +16,9 @@ import GrcovModel.Props.C03Docs
 import GrcovModel.Props.C03Main
 import GrcovModel.Props.C03JsonBytes
 import GrcovModel.Props.C03Html
+import GrcovModel.Props.C03FnOrder
+import GrcovModel.Props.C03HtmlDisk
+import GrcovModel.Props.C03Links
 namespace Grcov.Props.C03
 open Grcov AList Grcov.Writers
 
@@ -134,6 +137,34 @@ theorem C03_ade_partition (lines : List (Nat × Nat)) (l : Nat) :
     constructor
     · rintro ⟨⟨l', c⟩, ⟨hm, hc⟩, rfl⟩; simp only at hc; subst hc; exact hm
     · intro hm; exact ⟨(l, 0), ⟨hm, rfl⟩, rfl⟩
+
+/-! ### the base encodings ARE the fields of the tied documents (second review, item 33)
+
+`coverallsArray` and `coberturaLines` are not called by a driver op themselves; the theorems above
+are about the real writers because these two functions are, provably, the `coverage` field of the
+document `Docs.cvFile` builds (tied by `c03.docs.coveralls` and, byte for byte, `c03.json.coveralls`)
+and the `<line>` elements of the class `CobAde.docClass` builds (tied by `c03.cob.tree` and, byte
+for byte, `c03.cobbytes.ser`). -/
+
+/-- `coverallsArray` is the `coverage` array of the Coveralls entry the writer model produces, in
+both build modes, whenever it produces one. -/
+theorem C03_coveralls_array_is_docs (oc plus : Bool) (r : Docs.Res) (h : lastKey r.cov.lines < U32MAX) :
+    (Docs.cvFile oc plus r).map (·.coverage) = some (coverallsArray r.cov.lines) := by
+  rw [Docs.cvFile_ok oc plus r h]; rfl
+
+/-- `coberturaLines` lists, in order, the number, hits and conditions of the class lines of the
+Cobertura document the writer model produces. -/
+theorem C03_cobertura_lines_is_cobade (rel : Name) (c : Cov) (hnd : NodupKeys c.lines) :
+    (CobAde.docClass rel c).lines.map (fun l => (l.number, CobAde.CLine.hits l, CobAde.CLine.conds l))
+      = coberturaLines c := by
+  unfold CobAde.docClass Stats.cobClass coberturaLines keys
+  simp only [List.map_map]
+  apply List.map_congr_left
+  intro kv hkv
+  obtain ⟨k, v⟩ := kv
+  have hg : get? c.lines k = some v := get?_of_mem hnd hkv
+  simp only [Function.comp, Stats.lineFromNumber, hg, Option.getD_some]
+  cases hb : get? c.branches k <;> simp [Stats.CLine.number, CobAde.CLine.hits, CobAde.CLine.conds]
 
 /-- non-vacuity: the largest count survives, gaps are -1 -/
 example : covdirArray [(1, U64MAX), (3, 0)] = [(U64MAX : Int), -1, 0] := by decide
